@@ -199,6 +199,19 @@ def support(b):
     return _SUPP[b.uid]
 
 
+def has_yield(fnode):
+    """does this function body (not the functions nested in it) contain yield / yield from?"""
+    stack = list(fnode.body) if isinstance(fnode.body, list) else [fnode.body]
+    while stack:
+        n = stack.pop()
+        if isinstance(n, (ast.Yield, ast.YieldFrom)):
+            return True
+        if isinstance(n, (ast.FunctionDef, ast.AsyncFunctionDef, ast.Lambda, ast.ClassDef)):
+            continue
+        stack.extend(ast.iter_child_nodes(n))
+    return False
+
+
 class NeedDecision(Exception):
     def __init__(self, node):
         self.node = node
@@ -558,9 +571,10 @@ class Unsupported(Exception):
 
 
 class LocalFn:
-    def __init__(self, node, frame):
+    def __init__(self, node, frame, defaults=()):
         self.node = node
         self.frame = frame
+        self.defaults = tuple(defaults)
 
 
 class BoundMethod:
@@ -678,7 +692,7 @@ class VM:
         if key not in self.cache:
             tree = ast.parse(textwrap.dedent(inspect.getsource(fn)))
             node = tree.body[0]
-            gen = any(isinstance(n, (ast.Yield, ast.YieldFrom)) for n in ast.walk(node))
+            gen = has_yield(node)
             self.cache[key] = (node, gen)
             self.encoded.add('%s.%s' % (fn.__module__, fn.__qualname__))
         return self.cache[key]
@@ -738,6 +752,25 @@ class VM:
                 raise Unsupported('missing arg %s in %s' % (nm, fr.name))
         if a.vararg:
             fr.locals[a.vararg.arg] = tuple(args[len(names):])
+        elif len(args) > len(names):
+            raise Unsupported('too many positional arguments for %s' % fr.name)
+        used = set(names)
+        for ka, kd in zip(a.kwonlyargs, a.kw_defaults):
+            used.add(ka.arg)
+            if ka.arg in kwargs:
+                fr.locals[ka.arg] = kwargs[ka.arg]
+            elif kd is not None:
+                fr.locals[ka.arg] = Ctx(self, fr, True).ev(kd)
+            else:
+                raise Unsupported('missing keyword-only arg %s in %s' % (ka.arg, fr.name))
+        extra = {k: v for k, v in kwargs.items() if k not in used}
+        if a.kwarg:
+            d = MDict()
+            for k, v in extra.items():
+                Ctx(self, fr, True).setitem(d, k, v)
+            fr.locals[a.kwarg.arg] = d
+        elif extra:
+            raise Unsupported('unexpected keyword arguments %s for %s' % (sorted(extra), fr.name))
 
     # -------- statements
     def block(self, stmts, fr, g):
@@ -756,9 +789,16 @@ class VM:
         if isinstance(s.value, ast.Constant):
             return c.g
         if isinstance(s.value, ast.Yield):
-            v = c.ev(s.value.value)
+            v = c.ev(s.value.value) if s.value.value is not None else None
             if c.g is not False:
                 fr.yields.append((c.g, v))
+            return c.g
+        if isinstance(s.value, ast.YieldFrom):
+            it = c.ev(s.value.value)
+            for (ge, v) in c.iter_plan(it):
+                gg = b_and(c.g, ge)
+                if gg is not False:
+                    fr.yields.append((gg, v))
             return c.g
         c.ev(s.value)
         return c.g
@@ -790,8 +830,88 @@ class VM:
     def st_AugAssign(self, s, fr, c):
         t2 = copy.copy(s.target)
         t2.ctx = ast.Load()
-        v = c.binop(s.op, c.ev(t2), c.ev(s.value))
+        cur = c.ev(t2)
+        rhs = c.ev(s.value)
+        if isinstance(cur, MSet) and isinstance(s.op, (ast.BitOr, ast.BitAnd, ast.Sub, ast.BitXor)):
+            # sets are updated IN PLACE (other references see the change), as in Python
+            other = c.to_mset(c.flatten_set(rhs) if isinstance(rhs, SChoice) else rhs)
+            g = c.g
+            for k in list(cur.order) + [k for k in other.order if k not in cur.bits]:
+                x, y = cur.get(k), other.get(k)
+                if isinstance(s.op, ast.BitOr):
+                    v = b_or(x, y)
+                elif isinstance(s.op, ast.BitAnd):
+                    v = b_and(x, y)
+                elif isinstance(s.op, ast.Sub):
+                    v = b_and(x, b_not(y))
+                else:
+                    v = b_xor(x, y)
+                cur.put(k, b_ite(g, v, x))
+            return c.g
+        if isinstance(cur, MList) and isinstance(s.op, ast.Add):
+            builtin_method(c, cur, 'extend', [rhs], {})
+            return c.g
+        v = c.binop(s.op, cur, rhs)
         c.assign(s.target, v)
+        return c.g
+
+    def st_Assert(self, s, fr, c):
+        cond = self.conc(c.truth(c.ev(s.test)))
+        c.raise_(b_not(cond), AssertionError())
+        return c.g
+
+    def st_Delete(self, s, fr, c):
+        for t in s.targets:
+            if isinstance(t, ast.Name):
+                fr.locals.pop(t.id, None)
+            elif isinstance(t, ast.Subscript):
+                o, k = c.ev(t.value), c.ev(t.slice)
+                if isinstance(o, MDict) and not isinstance(k, (SChoice, SBool)):
+                    pres = o.present.get(k, False)
+                    c.raise_(b_not(pres), KeyError(k))
+                    if k in o.present:
+                        o.present[k] = b_and(o.present[k], b_not(c.g))
+                elif isinstance(o, MList) and isinstance(k, int) and not isinstance(k, bool) and k >= 0:
+                    list_pop_at(c, o, k)
+                elif isinstance(o, (dict, list)) and c.g is True and not is_symbolic(k):
+                    del o[k]
+                else:
+                    raise Unsupported('del of %r[%r]' % (o, k))
+            else:
+                raise Unsupported('del target')
+        return c.g
+
+    def st_Import(self, s, fr, c):
+        import importlib
+        for a in s.names:
+            mod = importlib.import_module(a.name)
+            if a.asname:
+                fr.locals[a.asname] = mod
+            else:
+                fr.locals[a.name.split('.')[0]] = importlib.import_module(a.name.split('.')[0])
+        return c.g
+
+    def st_ImportFrom(self, s, fr, c):
+        import importlib
+        if s.level:
+            pkg = fr.globals.get('__package__') or fr.globals.get('__name__', '').rpartition('.')[0]
+            mod = importlib.import_module('.' * s.level + (s.module or ''), pkg)
+        else:
+            mod = importlib.import_module(s.module)
+        for a in s.names:
+            if a.name == '*':
+                raise Unsupported('from ... import *')
+            try:
+                fr.locals[a.asname or a.name] = getattr(mod, a.name)
+            except AttributeError:
+                fr.locals[a.asname or a.name] = importlib.import_module(mod.__name__ + '.' + a.name)
+        return c.g
+
+    def st_Global(self, s, fr, c):
+        raise Unsupported('global statement (writes to module state are not modelled)')
+
+    def st_Nonlocal(self, s, fr, c):
+        fr.nonlocals = getattr(fr, 'nonlocals', set()) | set(s.names)
         return c.g
 
     def st_If(self, s, fr, c):
@@ -881,6 +1001,11 @@ class VM:
         self.stats['loops'][key] = max(self.stats['loops'].get(key, 0), n)
         brk = fr.brk
         fr.brk, fr.cont = saved_brk, saved_cont
+        if s.orelse:
+            # the else branch runs on normal exhaustion of the loop, not after a break
+            fr.locals = join_env(exits)
+            gelse = self.block(s.orelse, fr, b_or(*[gp for gp, _ in exits]))
+            exits = [(gelse, fr.locals)]
         parts = exits + brk
         fr.locals = join_env(parts)
         return b_or(*[gp for gp, _ in parts])
@@ -922,13 +1047,25 @@ class VM:
             gh_out = self.block(h.body, fr, gh)
             parts.append((gh_out, fr.locals))
         fr.exc.extend(raised)
-        if s.orelse or s.finalbody:
-            raise Unsupported('try-else/finally')
+        if s.orelse:
+            fr.locals = parts[0][1]
+            g_else = self.block(s.orelse, fr, parts[0][0])
+            parts[0] = (g_else, fr.locals)
+        if s.finalbody:
+            # the finally block runs on every way out: normal completion (here) and, conservatively, it is required to be free
+            # of returns; exceptions/returns that leave the try keep their guards (their side effects in finally are applied too)
+            if any(isinstance(n, (ast.Return, ast.Break, ast.Continue)) for st_ in s.finalbody for n in ast.walk(st_)):
+                raise Unsupported('return/break inside finally')
+            leaving = b_or(*([x[0] for x in fr.exc[len(saved):]] + [gr for gr, _ in fr.ret[getattr(self, '_ret_mark', len(fr.ret)):]]))
+            fr.locals = join_env(parts)
+            gall = b_or(*[gp for gp, _ in parts])
+            gfin = self.block(s.finalbody, fr, b_or(gall, leaving) if leaving is not False else gall)
+            return b_and(gall, gfin) if gfin is not gall else gall
         fr.locals = join_env(parts)
         return b_or(*[gp for gp, _ in parts])
 
     def st_FunctionDef(self, s, fr, c):
-        fr.locals[s.name] = LocalFn(s, fr)
+        fr.locals[s.name] = LocalFn(s, fr, [c.ev(d) for d in s.args.defaults])
         return c.g
 
 
@@ -982,6 +1119,26 @@ class Ctx:
         if isinstance(t, ast.Name):
             self.fr.locals[t.id] = v
         elif isinstance(t, (ast.Tuple, ast.List)):
+            stars = [i for i, x in enumerate(t.elts) if isinstance(x, ast.Starred)]
+            if stars:
+                try:
+                    nat = to_native(v)
+                except NotConcrete:
+                    raise Unsupported('starred unpacking of a symbolic sequence')
+                seq = list(v.slots[:v.lo]) if isinstance(v, MList) else list(v) if isinstance(v, (tuple, list)) else list(nat)
+                i = stars[0]
+                after = len(t.elts) - i - 1
+                if len(seq) < len(t.elts) - 1:
+                    self.raise_(True, ValueError('not enough values to unpack'))
+                    return
+                for tt, pv in zip(t.elts[:i], seq[:i]):
+                    self.bind_target(tt, pv)
+                mid = MList(seq[i:len(seq) - after])
+                mid.fresh = True
+                self.bind_target(t.elts[i].value, mid)
+                for tt, pv in zip(t.elts[i + 1:], seq[len(seq) - after:]):
+                    self.bind_target(tt, pv)
+                return
             for tt, pv in zip(t.elts, self.unpack(v, len(t.elts))):
                 self.bind_target(tt, pv)
         else:
@@ -1327,7 +1484,26 @@ class Ctx:
         raise Unsupported('attr %s on %r' % (name, obj))
 
     def ex_Subscript(self, e):
+        if isinstance(e.slice, ast.Slice):
+            o = self.ev(e.value)
+            lo = self.ev(e.slice.lower) if e.slice.lower is not None else None
+            hi = self.ev(e.slice.upper) if e.slice.upper is not None else None
+            st = self.ev(e.slice.step) if e.slice.step is not None else None
+            if any(is_symbolic(x) for x in (lo, hi, st)):
+                raise Unsupported('symbolic slice bounds')
+            if isinstance(o, MList):
+                if o.lo != o.hi:
+                    raise Unsupported('slice of a list of symbolic length')
+                l = MList(o.slots[:o.lo][slice(lo, hi, st)])
+                l.fresh = True
+                return l
+            if is_symbolic(o):
+                raise Unsupported('slice of %r' % (o,))
+            return o[slice(lo, hi, st)]
         return self.getitem(self.ev(e.value), self.ev(e.slice))
+
+    def ex_Starred(self, e):
+        raise Unsupported('starred expression')
 
     def ex_UnaryOp(self, e):
         v = self.ev(e.operand)
@@ -1501,9 +1677,27 @@ class Ctx:
         if isinstance(b, str) and isinstance(op, ast.Add) and (is_symbolic(a) or b == FMT):
             return FMT
         import operator
+        if isinstance(a, MList) and isinstance(b, MList) and isinstance(op, ast.Add) and a.lo == a.hi and b.lo == b.hi:
+            l = MList(a.slots[:a.lo] + b.slots[:b.lo])
+            l.fresh = True
+            return l
+        if isinstance(a, MList) and isinstance(b, int) and isinstance(op, ast.Mult) and a.lo == a.hi:
+            l = MList(a.slots[:a.lo] * b)
+            l.fresh = True
+            return l
         f = {ast.Add: operator.add, ast.Sub: operator.sub, ast.Mod: operator.mod, ast.BitAnd: operator.and_,
-             ast.BitOr: operator.or_, ast.BitXor: operator.xor, ast.Mult: operator.mul}[type(op)]
-        return f(a, b)
+             ast.BitOr: operator.or_, ast.BitXor: operator.xor, ast.Mult: operator.mul, ast.FloorDiv: operator.floordiv,
+             ast.Div: operator.truediv, ast.Pow: operator.pow, ast.LShift: operator.lshift, ast.RShift: operator.rshift}[type(op)]
+        if is_symbolic(a) or is_symbolic(b):
+            try:
+                return from_native(f(to_native(a), to_native(b)))
+            except NotConcrete:
+                raise Unsupported('operator %s on symbolic operands' % type(op).__name__)
+        try:
+            return f(a, b)
+        except (ZeroDivisionError, TypeError) as ex:
+            self.raise_(True, ex)
+            return None
 
     def flatten_set(self, x):
         if not isinstance(x, SChoice):
@@ -1548,6 +1742,8 @@ class Ctx:
                 v = b_or(x, y)
             elif isinstance(op, ast.Sub):
                 v = b_and(x, b_not(y))
+            elif isinstance(op, ast.BitXor):
+                v = b_xor(x, y)
             else:
                 raise Unsupported('set op')
             r.put(k, v)
@@ -1571,7 +1767,25 @@ class Ctx:
         return LocalFn(e, self.fr)
 
     def ex_JoinedStr(self, e):
-        return FMT
+        parts = []
+        for v in e.values:
+            if isinstance(v, ast.Constant):
+                parts.append(str(v.value))
+                continue
+            x = self.ev(v.value)
+            if is_symbolic(x) or x == FMT:
+                return FMT        # a message built from symbolic values: never the subject of a property
+            conv = {-1: format, 115: lambda a, f_: format(str(a), f_), 114: lambda a, f_: format(repr(a), f_), 97: lambda a, f_: format(ascii(a), f_)}[v.conversion]
+            spec = ''
+            if v.format_spec is not None:
+                spec = self.ex_JoinedStr(v.format_spec)
+                if spec == FMT:
+                    return FMT
+            parts.append(conv(x, spec))
+        return ''.join(parts)
+
+    def ex_FormattedValue(self, e):
+        return self.ex_JoinedStr(ast.JoinedStr(values=[e]))
 
     def ex_ListComp(self, e):
         return self.comp(e, 'list')
@@ -1678,14 +1892,14 @@ class Ctx:
             node = fn.node
             fr = Frame('<local>', fn.frame.globals, fn.frame.closure, fn.frame)
             if isinstance(node, ast.Lambda):
-                for nm, v in zip([a.arg for a in node.args.args], args):
-                    fr.locals[nm] = v
+                ldef = [Ctx(vm, fn.frame, True).ev(d) for d in node.args.defaults]
+                vm.bind(node.args, ldef, fr, args, kwargs)
                 c = Ctx(vm, fr, self.g)
                 v = c.ev(node.body)
                 self.absorb(fr.exc)
                 return v
-            vm.bind(node.args, (), fr, args, kwargs)
-            gen = any(isinstance(n, ast.Yield) for n in ast.walk(node))
+            vm.bind(node.args, fn.defaults, fr, args, kwargs)
+            gen = has_yield(node)
             val, excs = vm.run_body(node, fr, self.g, gen)
             self.absorb(excs)
             return val
@@ -1749,7 +1963,19 @@ class Ctx:
             self.g = b_and(saved, b_not(lost))
             return None if res is UNDEF else res
         if any(is_symbolic(a) for a in args) or any(is_symbolic(a) for a in kwargs.values()):
-            raise Unsupported('native call %r with symbolic args' % (fn,))
+            # arguments that are model containers without any symbolic guard are handed over as plain Python values
+            try:
+                nargs = [to_native(a) for a in args]
+                nkw = {k: to_native(v) for k, v in kwargs.items()}
+            except NotConcrete:
+                raise Unsupported('native call %r with symbolic args' % (fn,))
+            if any(isinstance(a, (LocalFn, BoundMethod)) for a in list(args) + list(kwargs.values())):
+                raise Unsupported('native call %r with an interpreted callable' % (fn,))
+            try:
+                return from_native(fn(*nargs, **nkw))
+            except Exception as ex:
+                self.raise_(True, ex)
+                return None
         try:
             return fn(*args, **kwargs)
         except Exception as ex:
@@ -1827,6 +2053,73 @@ def list_pop_at(ctx, lst, k):
     return res
 
 
+class NotConcrete(Exception):
+    pass
+
+
+def to_native(v, depth=0):
+    """plain Python value of a model value all of whose guards are constants (raises NotConcrete otherwise)"""
+    if depth > 6:
+        raise NotConcrete()
+    if isinstance(v, MList):
+        if v.lo != v.hi:
+            raise NotConcrete()
+        return [to_native(x, depth + 1) for x in v.slots[:v.lo]]
+    if isinstance(v, MSet):
+        if not all(is_c(b) for b in v.bits.values()):
+            raise NotConcrete()
+        return set(to_native(k, depth + 1) for k in v.order if v.bits[k] is True)
+    if isinstance(v, MDict):
+        if not all(is_c(b) for b in v.present.values()):
+            raise NotConcrete()
+        return {k: to_native(v.vals[k], depth + 1) for k in v.order if v.present[k] is True}
+    if isinstance(v, GSeq):
+        if not all(is_c(g) for g, _ in v.entries):
+            raise NotConcrete()
+        return [to_native(x, depth + 1) for g, x in v.entries if g is True]
+    if isinstance(v, (KeysView, ValuesView, ItemsView)):
+        d = to_native(v.d, depth + 1)
+        return list(d.keys() if isinstance(v, KeysView) else d.values() if isinstance(v, ValuesView) else d.items())
+    if isinstance(v, tuple):
+        return tuple(to_native(x, depth + 1) for x in v)
+    if isinstance(v, list):
+        return [to_native(x, depth + 1) for x in v]
+    if isinstance(v, (SBool, SInt, SChoice, LocalFn, BoundMethod, BuiltinMethod, SetIter, ListIter, WeakRefModel)):
+        raise NotConcrete()
+    if isinstance(v, MObj):
+        return v                 # identity-hashed heap object: usable as an opaque value (dict key, set member)
+    return v
+
+
+def from_native(r, depth=0):
+    if depth > 6:
+        return r
+    if isinstance(r, list):
+        l = MList([from_native(x, depth + 1) for x in r])
+        l.fresh = True
+        return l
+    if isinstance(r, (set, frozenset)) and not isinstance(r, MSet):
+        m = MSet()
+        m.fresh = True
+        for x in r:
+            m.put(x, True)
+        return m
+    if isinstance(r, dict):
+        d = MDict()
+        for k, x in r.items():
+            d.present[k] = True
+            d.vals[k] = from_native(x, depth + 1)
+            d.order.append(k)
+        return d
+    if isinstance(r, tuple):
+        return tuple(from_native(x, depth + 1) for x in r)
+    return r
+
+
+class DequeModel(MList):
+    pass
+
+
 def builtin_method(ctx, o, n, args, kwargs):
     g = ctx.g
     if isinstance(o, MSet):
@@ -1848,7 +2141,98 @@ def builtin_method(ctx, o, n, args, kwargs):
             return ctx.set_binop({'__or__': ast.BitOr(), '__and__': ast.BitAnd(), '__sub__': ast.Sub()}[n], o, args[0])
         if n == '__iter__':
             return SetIter(o.bits, o.keys_sorted())
+        if n in ('union', 'intersection', 'difference', 'symmetric_difference'):
+            res = o.copy()
+            res.fresh = True
+            for a in args:
+                other = ctx.to_mset(ctx.flatten_set(a) if isinstance(a, SChoice) else (m_set(ctx, a) if not isinstance(a, (MSet, KeysView, set, frozenset)) else a))
+                new_ = MSet()
+                for k in list(res.order) + [k for k in other.order if k not in res.bits]:
+                    x, y = res.get(k), other.get(k)
+                    new_.put(k, {'union': b_or(x, y), 'intersection': b_and(x, y), 'difference': b_and(x, b_not(y)), 'symmetric_difference': b_xor(x, y)}[n])
+                res = new_
+                res.fresh = True
+            return res
+        if n in ('difference_update', 'intersection_update', 'symmetric_difference_update'):
+            for a in args:
+                other = ctx.to_mset(m_set(ctx, a) if not isinstance(a, (MSet, KeysView, set, frozenset)) else a)
+                for k in list(o.order) + [k for k in other.order if k not in o.bits]:
+                    x, y = o.get(k), other.get(k)
+                    v = {'difference_update': b_and(x, b_not(y)), 'intersection_update': b_and(x, y), 'symmetric_difference_update': b_xor(x, y)}[n]
+                    o.put(k, b_ite(g, v, x))
+            return None
+        if n in ('discard', 'remove'):
+            for (gv, va) in alts_of(args[0]):
+                gg = b_and(g, gv)
+                if n == 'remove':
+                    ctx.raise_(b_and(gv, b_not(o.get(va))), KeyError(va))
+                    gg = b_and(ctx.g, gv)
+                if va in o.bits:
+                    o.put(va, b_and(o.get(va), b_not(gg)))
+            return None
+        if n == 'clear':
+            for k in list(o.order):
+                o.put(k, b_and(o.get(k), b_not(g)))
+            return None
+        if n == 'pop':
+            it = SetIter(o.bits, o.keys_sorted())
+            v = m_next(ctx, it)
+            for (ge_, e_, _) in list(ctx.fr.exc):
+                pass
+            for (gv, va) in alts_of(v):
+                if va is not None and va in o.bits:
+                    o.put(va, b_and(o.get(va), b_not(b_and(ctx.g, gv))))
+            return v
+        if n in ('issubset', 'issuperset', 'isdisjoint'):
+            other = ctx.to_mset(m_set(ctx, args[0]) if not isinstance(args[0], (MSet, KeysView, set, frozenset)) else args[0])
+            keys = list(o.order) + [k for k in other.order if k not in o.bits]
+            if n == 'issubset':
+                return mk_bool(b_and(*[b_or(b_not(o.get(k)), other.get(k)) for k in keys]))
+            if n == 'issuperset':
+                return mk_bool(b_and(*[b_or(b_not(other.get(k)), o.get(k)) for k in keys]))
+            return mk_bool(b_not(b_or(*[b_and(o.get(k), other.get(k)) for k in keys])))
     if isinstance(o, MDict):
+        if n == 'pop':
+            k = args[0]
+            res = UNDEF
+            for (gk, ka) in reversed(alts_of(k)):
+                pres = o.present.get(ka, False)
+                if len(args) > 1:
+                    v = merge(pres, o.vals[ka], args[1]) if pres is not False else args[1]
+                else:
+                    ctx.raise_(b_and(gk, b_not(pres)), KeyError(ka))
+                    v = o.vals[ka] if pres is not False else UNDEF
+                if ka in o.present:
+                    o.present[ka] = b_and(o.present[ka], b_not(b_and(ctx.g, gk)))
+                res = merge(gk, v, res)
+            return None if res is UNDEF else res
+        if n == 'update':
+            for a in args:
+                if isinstance(a, MDict):
+                    for k in list(a.order):
+                        sub = ctx.sub(a.present[k])
+                        if sub.g is not False:
+                            sub.setitem(o, k, a.vals[k])
+                elif isinstance(a, dict):
+                    for k, v in a.items():
+                        ctx.setitem(o, k, from_native(v) if not is_symbolic(v) else v)
+                else:
+                    for (ge, kv) in ctx.iter_plan(a):
+                        kk, vv = ctx.unpack(kv, 2)
+                        ctx.sub(ge).setitem(o, kk, vv)
+            for k, v in kwargs.items():
+                ctx.setitem(o, k, v)
+            return None
+        if n == 'clear':
+            for k in list(o.order):
+                o.present[k] = b_and(o.present[k], b_not(g))
+            return None
+        if n == 'copy':
+            d = MDict()
+            d.present, d.vals, d.order = dict(o.present), dict(o.vals), list(o.order)
+            return d
+        if n == '__contains__':
+            return mk_bool(ctx.contains(o, args[0]))
         if n == 'get':
             k = args[0]
             dflt = args[1] if len(args) > 1 else None
@@ -1889,6 +2273,61 @@ def builtin_method(ctx, o, n, args, kwargs):
             return list_pop_at(ctx, o, args[0])
         if n == '__iter__':
             return ListIter(o)
+        if n == 'popleft':
+            return list_pop_at(ctx, o, 0)
+        if n in ('insert', 'appendleft', 'remove', 'index', 'count', 'reverse', 'sort', 'copy', 'clear', 'extendleft', 'rotate'):
+            # positional list surgery is only modelled for lists of known length on a path that is certainly taken
+            if o.lo != o.hi or g is not True:
+                raise Unsupported('list.%s on a list of symbolic length / under a symbolic guard' % n)
+            cur = o.slots[:o.lo]
+            if n in ('insert', 'appendleft'):
+                i = args[0] if n == 'insert' else 0
+                v = args[1] if n == 'insert' else args[0]
+                if not isinstance(i, int):
+                    raise Unsupported('symbolic insert position')
+                cur.insert(i, v)
+            elif n == 'reverse':
+                cur.reverse()
+            elif n == 'clear':
+                cur = []
+            elif n == 'copy':
+                l2 = MList(cur)
+                l2.fresh = True
+                return l2
+            else:
+                try:
+                    nat = to_native(o)
+                    nat_args = [to_native(a) for a in args]
+                except NotConcrete:
+                    raise Unsupported('list.%s with symbolic elements' % n)
+                if n in ('index', 'count'):
+                    try:
+                        return getattr(nat, n)(*nat_args)
+                    except ValueError as ex:
+                        ctx.raise_(True, ex)
+                        return None
+                if n == 'sort':
+                    key = kwargs.get('key')
+                    if key is not None:
+                        ks = [ctx.call(key, [x], {}) for x in cur]
+                        if any(is_symbolic(k_) for k_ in ks):
+                            raise Unsupported('sort with symbolic keys')
+                        order = sorted(range(len(cur)), key=lambda i_: ks[i_], reverse=bool(kwargs.get('reverse')))
+                    else:
+                        order = sorted(range(len(cur)), key=lambda i_: nat[i_], reverse=bool(kwargs.get('reverse')))
+                    cur = [cur[i_] for i_ in order]
+                elif n == 'remove':
+                    try:
+                        i = nat.index(nat_args[0])
+                    except ValueError as ex:
+                        ctx.raise_(True, ex)
+                        return None
+                    del cur[i]
+                else:
+                    raise Unsupported('list.%s' % n)
+            o.slots = cur
+            o.lo = o.hi = o.len = len(cur)
+            return None
     raise Unsupported('method %s on %s' % (n, type(o).__name__))
 
 
@@ -1901,8 +2340,22 @@ def m_set(ctx, it=None):
     return s
 
 
-def m_dict(ctx, *a):
-    return MDict()
+def m_frozenset(ctx, it=None):
+    if it is None:
+        return frozenset()
+    try:
+        return frozenset(to_native(it) if is_symbolic(it) else it)      # hashable, usable as a key
+    except (NotConcrete, TypeError):
+        return m_set(ctx, it)
+
+
+def m_dict(ctx, *a, **kw):
+    d = MDict()
+    if a and a[0] is not None:
+        builtin_method(ctx, d, 'update', [a[0]], {})
+    for k, v in kw.items():
+        ctx.setitem(d, k, v)
+    return d
 
 
 def m_list(ctx, it=None):
@@ -1995,7 +2448,11 @@ def m_next(ctx, it):
     return None if res is UNDEF else res
 
 
-def m_min(ctx, *a):
+def m_min(ctx, *a, key=None, default=None):
+    if key is not None:
+        return m_minmax_key(ctx, min, a, key)
+    if len(a) == 1 and isinstance(a[0], (MSet, KeysView, GSeq)) or (len(a) == 1 and isinstance(a[0], MList) and a[0].lo != a[0].hi):
+        return m_extreme_of_set(ctx, a[0], False)
     if len(a) == 1:
         a = a[0]
         if isinstance(a, MList) and a.lo == a.hi:
@@ -2030,10 +2487,36 @@ def m_range(ctx, *a):
 
 
 def m_sorted(ctx, it, key=None, reverse=False):
-    plan = list(ctx.iter_plan(it))
+    plan = [(g, v) for g, v in ctx.iter_plan(it) if g is not False]
     if not all(g is True for g, _ in plan):
-        raise Unsupported('sorted on symbolic collection')
+        # symbolic membership, concrete elements: the result is the sorted universe with every element appended under its guard
+        if isinstance(it, (SetIter, ListIter)) or any(is_symbolic(v) for _, v in plan):
+            raise Unsupported('sorted on symbolic collection')
+        ks = [v if key is None else ctx.call(key, [v], {}) for _, v in plan]
+        if any(is_symbolic(k_) for k_ in ks):
+            raise Unsupported('sorted with symbolic keys')
+        try:
+            order = sorted(range(len(plan)), key=lambda i_: ks[i_], reverse=bool(reverse))
+        except TypeError:
+            raise Unsupported('sorted of incomparable elements with symbolic membership')
+        if isinstance(it, (MList, GSeq)) and len({repr(k_) for k_ in ks}) != len(ks):
+            raise Unsupported('sorted of a symbolic-length sequence with ties')
+        lst = MList()
+        for i_ in order:
+            list_append(Ctx(ctx.vm, ctx.fr, b_and(ctx.g, plan[i_][0])), lst, plan[i_][1])
+        return lst
     vals = [v for _, v in plan]
+    if ORDER['tie'] is not None and isinstance(it, (MSet,)) :
+        pass
+    if key is None:
+        try:
+            nat = [to_native(v) for v in vals]
+            order = sorted(range(len(vals)), key=lambda i_: nat[i_], reverse=reverse)
+            l = MList([vals[i_] for i_ in order])
+            l.fresh = True
+            return l
+        except NotConcrete:
+            raise Unsupported('sorted of symbolic elements')
     if key is None:
         return MList(sorted(vals, reverse=reverse))
     keys = [ctx.call(key, [v], {}) for v in vals]
@@ -2083,7 +2566,47 @@ def m_bool(ctx, o=False):
     return mk_bool(ctx.truth(o))
 
 
-def m_max(ctx, *a):
+def m_minmax_key(ctx, fn, a, key):
+    if len(a) == 1:
+        plan = list(ctx.iter_plan(a[0]))
+        if not all(g is True for g, _ in plan):
+            raise Unsupported('min/max of a symbolic collection')
+        vals = [v for _, v in plan]
+    else:
+        vals = list(a)
+    ks = [ctx.call(key, [v], {}) for v in vals]
+    if any(is_symbolic(k_) for k_ in ks):
+        raise Unsupported('min/max with symbolic keys')
+    return vals[fn(range(len(vals)), key=lambda i_: ks[i_])]
+
+
+def m_extreme_of_set(ctx, coll, want_max):
+    """min / max of a collection with symbolic membership and concrete, comparable elements"""
+    plan = [(g, v) for g, v in ctx.iter_plan(coll) if g is not False]
+    if any(is_symbolic(v) for _, v in plan):
+        raise Unsupported('min/max over symbolic elements')
+    try:
+        plan.sort(key=lambda gv: gv[1], reverse=want_max)
+    except TypeError:
+        raise Unsupported('min/max of incomparable elements')
+    none_before = True
+    res = UNDEF
+    picks = []
+    for g, v in plan:
+        picks.append((b_and(none_before, g), v))
+        none_before = b_and(none_before, b_not(g))
+    ctx.raise_(none_before, ValueError('min()/max() of an empty collection'))
+    for g, v in reversed(picks):
+        if g is not False:
+            res = merge(g, v, res)
+    return None if res is UNDEF else res
+
+
+def m_max(ctx, *a, key=None, default=None):
+    if key is not None:
+        return m_minmax_key(ctx, max, a, key)
+    if len(a) == 1 and isinstance(a[0], (MSet, KeysView, GSeq)) or (len(a) == 1 and isinstance(a[0], MList) and a[0].lo != a[0].hi):
+        return m_extreme_of_set(ctx, a[0], True)
     if len(a) == 1:
         a = a[0]
         if isinstance(a, MList) and a.lo == a.hi:
@@ -2112,5 +2635,36 @@ def m_weakref_ref(ctx, o, callback=None):
     return WeakRefModel(o)
 
 
-MODELS = {weakref.ref: m_weakref_ref, weakref.WeakValueDictionary: m_dict, weakref.WeakKeyDictionary: m_dict, any: m_any, all: m_all, bool: m_bool, max: m_max, tuple: m_tuple, frozenset: m_set, weakref.WeakSet: m_set, id: m_id, set: m_set, dict: m_dict, list: m_list, len: m_len, iter: m_iter, next: m_next, min: m_min,
+def m_deque(ctx, it=None, maxlen=None):
+    l = m_list(ctx, it) if it is not None else MList()
+    d = DequeModel(l.slots[:l.hi])
+    d.lo, d.hi, d.len = l.lo, l.hi, l.len
+    return d
+
+
+def m_enumerate(ctx, it, start=0):
+    plan = [(g, v) for g, v in ctx.iter_plan(it) if g is not False]
+    if not all(g is True for g, _ in plan):
+        raise Unsupported('enumerate over a collection with symbolic membership')
+    return GSeq([(True, (i + start, v)) for i, (g, v) in enumerate(plan)])
+
+
+def m_zip(ctx, *its):
+    plans = [[(g, v) for g, v in ctx.iter_plan(it) if g is not False] for it in its]
+    if not all(g is True for p_ in plans for g, _ in p_):
+        raise Unsupported('zip over a collection with symbolic membership')
+    return GSeq([(True, tuple(v for _, v in row)) for row in zip(*plans)])
+
+
+def m_reversed(ctx, it):
+    if isinstance(it, MList) and it.lo != it.hi:
+        raise Unsupported('reversed() of a list of symbolic length')
+    plan = [(g, v) for g, v in ctx.iter_plan(it) if g is not False]
+    if not all(g is True for g, _ in plan):
+        raise Unsupported('reversed over symbolic membership')
+    return GSeq(list(reversed(plan)))
+
+
+import collections as _collections
+MODELS = {_collections.deque: m_deque, enumerate: m_enumerate, zip: m_zip, reversed: m_reversed, weakref.ref: m_weakref_ref, weakref.WeakValueDictionary: m_dict, weakref.WeakKeyDictionary: m_dict, any: m_any, all: m_all, bool: m_bool, max: m_max, tuple: m_tuple, frozenset: m_frozenset, weakref.WeakSet: m_set, id: m_id, set: m_set, dict: m_dict, list: m_list, len: m_len, iter: m_iter, next: m_next, min: m_min,
           isinstance: m_isinstance, super: m_super, range: m_range, sum: m_sum, str: m_str, sorted: m_sorted}
